@@ -109,6 +109,7 @@ class State:
         s = State(self.env, self.pc)
         if getattr(self, 'approx', False):
             s.approx = True
+        s.ctrl = getattr(self, 'ctrl', None)
         return s
 
 
@@ -143,7 +144,7 @@ class Exec:
         for stn in stmts:
             nxt = []
             for st in states:
-                if st.done:
+                if st.done or getattr(st, 'ctrl', None):
                     nxt.append(st)
                 else:
                     nxt += self.stmt(stn, st)
@@ -199,6 +200,9 @@ class Exec:
             return self.loop(n, st)
         if isinstance(n, ast.Pass):
             return [st]
+        if isinstance(n, (ast.Break, ast.Continue)):
+            st.ctrl = 'break' if isinstance(n, ast.Break) else 'continue'
+            return [st]
         if isinstance(n, (ast.Import, ast.ImportFrom)):
             return [st]
         raise Unsupported(f'statement {type(n).__name__} at line {n.lineno}')
@@ -211,11 +215,17 @@ class Exec:
                 for x in it:
                     nxt = []
                     for s in states:
-                        if s.done:
+                        if s.done or getattr(s, 'ctrl', None) == 'break':
                             nxt.append(s); continue
                         self.assign(n.target, x, s)
-                        nxt += self.block(n.body, [s])
+                        for s2 in self.block(n.body, [s]):
+                            if getattr(s2, 'ctrl', None) == 'continue':
+                                s2.ctrl = None
+                            nxt.append(s2)
                     states = nxt
+                for s in states:
+                    if getattr(s, 'ctrl', None) == 'break':
+                        s.ctrl = None
                 return states
         if self.loop_handler is not None:
             return self.loop_handler(self, n, st)
